@@ -9,7 +9,8 @@ from gen import members, sweep, tableinfo
 RULE = ("for every (n, connectivity, LC class): k members constructed with independent local complementations, local "
         "Cliffords, generator bases and signs (quick k=3 for n<=5 and k=1 for n=6; thorough k=8 / 4), each sent through "
         "get_preparation_circuit, get_readout_circuit and (as a graph-state circuit + local gates) "
-        "compress_preparation_circuit. A case is one returned circuit. Non-trivial = class cost >= 1 and the member differs "
+        "compress_preparation_circuit; additionally every graph on n <= 5 vertices (and drawn six-vertex graphs) presented literally in "
+        "graph form (Graph object or canonical generator strings), whatever its edge count. A case is one returned circuit. Non-trivial = class cost >= 1 and the member differs "
         "from the table's representative by a local layer or basis change; distinct by (n, connectivity, canonical group, API). "
         "Oracle: own two-qubit counter (swap = 3) and ASAP two-qubit depth on the returned instruction list, compared with "
         "stabilizer_circuit_lookup(n, connectivity, id).cost/.depth where id is the table line whose graph lies in the "
@@ -36,7 +37,7 @@ def check_member(case):
     t_multi = cost.twoq_multiset(entry[3]) if entry else None
     results = []
     apis = []
-    stab = sweep.make_stabilizer(n, gens, case.get("format", "strings+sign"))
+    stab = sweep.make_stabilizer(n, gens, case.get("format", "strings+sign"), case.get("graph_gid"))
     apis.append(("preparation", lambda: L.sc.get_preparation_circuit(stab, name)))
     apis.append(("readout", lambda: L.sc.get_readout_circuit(sweep.make_stabilizer(n, gens, "strings+sign"), name)))
     if case.get("circuit"):
@@ -96,16 +97,59 @@ def shard(arg):
     return rep
 
 
+def shard_graphs(arg):
+    """states presented literally in graph form (canonical generators X_v Z_N(v), as Graph object or strings) for arbitrary --
+    not edge-minimal, possibly disconnected -- graphs: the cost must still be that of the class"""
+    n, gids, seed, deadline = arg
+    rep = fw.Report()
+    for i, gid in enumerate(gids):
+        if deadline and time.time() > deadline:
+            rep.truncated = True
+            break
+        gens = lc.graph_state_gens(n, gid)
+        sv = fw.h64("c04g", seed, n, gid) % (1 << n) if i % 3 == 2 else 0
+        g2 = members.apply_signs(gens, sv)
+        circ = [["h", [q]] for q in range(n)] + [["cz", list(e)] for e in lc.edges_from_gid(n, gid)]
+        for name in sweep.configs(n):
+            case = {"n": n, "connectivity": name, "strings": sweep.strings(g2, n),
+                    "format": "graph" if (sv == 0 and i % 2 == 0) else "strings+sign", "circuit": circ if i % 4 == 0 else None}
+            if case["format"] == "graph":
+                case["graph_gid"] = gid
+            fails, results = check_member(case)
+            canon = pauli.canonical_group(g2, n)
+            for res in results:
+                api, c, d = res[:3]
+                rep.case((n, name, canon, api, "graph-form") if c >= 1 else None,
+                         {"n": n, "connectivity": name, "graph": gid, "api": api, "twoq": c, "depth": d} if (i % 500 == 3 and api == "preparation") else None)
+                rep.count("circuits_per_api", api + "(graph-form input)")
+            for key, msg, extra in fails:
+                rep.fail(key, case, msg + " [input in graph form]", **extra)
+    return rep
+
+
+def shard_any(arg):
+    if arg[0] == "graphs":
+        return shard_graphs(arg[1:])
+    return shard(arg)
+
+
 def run(ctx):
     q = ctx.quick
     args = []
+    for n in range(2, 6):
+        N = 1 << (n * (n - 1) // 2)
+        for chunk in fw.split(list(range(N)), 1 if n < 5 else 16):
+            args.append(("graphs", n, chunk, ctx.seed, ctx.deadline))
+    rng = fw.rng_for("c04g6", ctx.seed)
+    for chunk in fw.split(sorted(rng.sample(range(1 << 15), 320 if q else 4000)), 16):
+        args.append(("graphs", 6, chunk, ctx.seed, ctx.deadline))
     for n in range(2, 7):
         reps = members.orbit_reps(n)
         k = (3 if n <= 5 else 1) if q else (8 if n <= 5 else 4)
         for chunk in fw.split(reps, {2: 1, 3: 1, 4: 2, 5: 12, 6: 96}[n]):
             args.append((n, chunk, k, ctx.seed, ctx.deadline))
-    args.sort(key=lambda a: -a[0])
-    rep = fw.run_shards(ctx, "props.c04", "shard", args)
+    args.sort(key=lambda a: -(a[1] if a[0] == "graphs" else a[0]))
+    rep = fw.run_shards(ctx, "props.c04", "shard_any", args)
     rep.extra["exhaustive"] = False
     rep.extra["exhaustive_part"] = "every (configuration, class) pair is visited with at least one member in every run; members are sampled"
     return rep
